@@ -75,11 +75,11 @@ Qed.
 (* ================================================================== one source statement, any blank runs *)
 Theorem reparsed_symbols_ws lay y ky ws r syms :
   let q := mkNeq (NTerm y (IInt ky) :: ws) r in
-  dq_ok_ws lay q = true -> no_function_named y r = true ->
+  dq_ok_ws lay q = true ->
   parse_equation_M (denorm_text lay q) = POk syms ->
   equations_of syms = [neq_text (nrm_q q)] /\ forall s, In s syms -> tidy s /\ sname s <> None.
 Proof.
-  intros q Hq Hf Hp. rewrite (parse_denorm_general lay q Hq) in Hp. rewrite nrm_q_text.
+  intros q Hq Hp. rewrite (parse_denorm_general lay q Hq) in Hp. rewrite nrm_q_text.
   set (eqn := nflat (nrm (whole_toks q))) in *. set (code := cflat (nrm (whole_toks q))) in *.
   destruct (equation_symbols eqn code (lneq_terms lay q)) as [l|] eqn:E; [|discriminate]. inversion Hp; subst l.
   pose proof (equation_symbols_texts eqn code _ _ E) as T.
@@ -90,7 +90,7 @@ Proof.
     destruct x; try discriminate. cbn [lay_terms lay_term tok_term]. apply IH, Hl. }
   assert (G : lhs_guard y (lneq_terms lay q) = true).
   { unfold lneq_terms, q. cbn [nlhs nrhs lay_terms lay_term]. rewrite Hws0, Hst. unfold lhs_guard. cbn [app forallb ttype tname style_type].
-    rewrite String.eqb_refl. apply (lhs_guard_terms lay y r Hf). }
+    rewrite String.eqb_refl. apply (lhs_guard_terms lay y r). }
   assert (HE : has_type TEndogenous (lneq_terms lay q) = true).
   { unfold lneq_terms, q. cbn [nlhs nrhs lay_terms lay_term]. rewrite Hst. reflexivity. }
   destruct (equation_symbols_one _ _ y _ _ G HE E) as [Hone Htidy].
@@ -105,29 +105,29 @@ Proof.
 Qed.
 
 Definition stmt_src_ws (lay : layout) (q : neq) : Prop :=
-  exists y ky ws r, q = mkNeq (NTerm y (IInt ky) :: ws) r /\ dq_ok_ws lay q = true /\ sep_ok lay r = true /\ no_function_named y r = true.
+  exists y ky ws r, q = mkNeq (NTerm y (IInt ky) :: ws) r /\ dq_ok_ws lay q = true /\ sep_ok lay r = true.
 
 Lemma stmt_src_ws_sem lay q : stmt_src_ws lay q -> stmt_sem (denorm_text lay q) (nrm_q q).
 Proof.
-  intros (y & ky & ws & r & -> & Hq & Hs & Hf). split; [apply (dq_ok_ws_neq_wf lay _ Hq Hs)|].
-  intros syms Hp. apply (reparsed_symbols_ws lay y ky ws r syms Hq Hf Hp).
+  intros (y & ky & ws & r & -> & Hq & Hs). split; [apply (dq_ok_ws_neq_wf lay _ Hq Hs)|].
+  intros syms Hp. apply (reparsed_symbols_ws lay y ky ws r syms Hq Hp).
 Qed.
 
 (* normal spacing is a special case *)
 Lemma stmt_src_q_ws lay q : GraphSrcGraph.stmt_src_q lay q -> stmt_src_ws lay q.
 Proof.
-  intros (y & ky & ws & r & -> & Hq & Hs & Hf). exists y, ky, ws, r. repeat split; try assumption.
+  intros (y & ky & ws & r & -> & Hq & Hs). exists y, ky, ws, r. repeat split; try assumption.
   unfold dq_ok in Hq. apply andb_true_iff in Hq as [Hq _]. exact Hq.
 Qed.
 
 Theorem source_statement_graph_ws lay y ky ws r syms :
   let q := mkNeq (NTerm y (IInt ky) :: ws) r in
-  dq_ok_ws lay q = true -> sep_ok lay r = true -> no_function_named y r = true ->
+  dq_ok_ws lay q = true -> sep_ok lay r = true ->
   parse_equation_M (denorm_text lay q) = POk syms ->
   symbols_to_graph_M syms = Ret (graph_of [nrm_q q]) /\ neq_wf (nrm_q q) = true.
 Proof.
-  intros q Hq Hs Hf Hp. pose proof (dq_ok_ws_neq_wf lay q Hq Hs) as W. split; [|exact W].
-  apply graph_total; [apply (proj1 (reparsed_symbols_ws lay y ky ws r syms Hq Hf Hp))|]. cbn [forallb]. rewrite W. reflexivity.
+  intros q Hq Hs Hp. pose proof (dq_ok_ws_neq_wf lay q Hq Hs) as W. split; [|exact W].
+  apply graph_total; [apply (proj1 (reparsed_symbols_ws lay y ky ws r syms Hq Hp))|]. cbn [forallb]. rewrite W. reflexivity.
 Qed.
 
 (* the normaliser keeps the terms, so the ids can be read off the source token lists *)
